@@ -1,12 +1,14 @@
 /* C15: Subprocess::communicate, parent side, against an OS model (child automaton + pipes + clock) written here.
  *
  * Cell (concrete, one query each): EVS = the child's script, SCHED = when its events happen, IN_N = stdin payload size,
- * CAP = stdin pipe capacity, TIMEOUT (0 = no deadline, else microseconds, a multiple of 1000).
- * Symbolic inside a cell: all stdout bytes, all payload bytes, how many bytes every read()/write()/child read moves
- * (1..possible), the wait status (any exit code / terminating signal / core flag), every clock increment, and - for the
- * events marked '*' in SCHED - the OS call at which the event happens (decided by a case split inside the harness: one
- * execution of communicate per position, selected by symbolic inputs; every position gets its own, fully folded symbolic
- * execution).
+ * CAP = stdin pipe capacity, TIMEOUT (0 = no deadline, else microseconds, a multiple of 1000), MVR/MVW/MVC = how many bytes
+ * every read()/write()/child read moves when it could move more than one (every possibility is a cell of its own).
+ * Symbolic inside a cell: all stdout bytes, all payload bytes, the wait status (any exit code / terminating signal / core flag) and every clock value.
+ * SCHED gives the position of every event (one base-36 digit per event, see below). LATE marks events ('1') whose
+ * position means "at this OS call OR ANY LATER ONE": such an event is never triggered by the schedule, and the query
+ * asserts that it nevertheless has happened by the end of that OS call (because a blocking call of the parent forced it),
+ * or that the parent made no OS call with that index any more (child killed at the deadline); all later positions then
+ * give literally the same run, so one query decides them all.
  *
  * Child script EVS, executed strictly in order; OS calls of the parent that "take time" are numbered 0,1,2,.. (gettimeofday,
  * waitpid, poll, read, write); event i happens immediately before OS call number at[i] is served - or earlier when a blocking
@@ -18,16 +20,24 @@
  * An event whose time has come but which blocks (r, e) delays itself and all later events.
  * Pipes: bytes written before exit/close stay readable; read() returns 1..min(requested, available), 0 at EOF (writer gone
  * and empty) and must not be called on an empty pipe with a live writer (it would block for ever: assertion). The stdin
- * pipe holds at most CAP bytes; write() moves 1..min(n, room) bytes, fails with EPIPE once the child closed its end, and
- * must not be called without room. poll() reports POLLIN (data), POLLHUP (writer gone), POLLOUT (room), POLLERR (reader
+ * pipe holds at most CAP bytes; write() moves 1..min(n, room) bytes (the behaviour of a non-blocking descriptor, or of a
+ * blocking one interrupted by a signal), fails with EPIPE once the child closed its end, and must not be called without
+ * room. Cells with WBLOCK=1 use the POSIX semantics of a blocking descriptor instead: write() returns only when all n bytes
+ * are in the pipe, sleeping while it is full (only the child can make room; it cannot: "deadlock" assertion) - unless the
+ * code under test has switched the descriptor to O_NONBLOCK (fcntl is modelled), then EAGAIN when full. OCAP bounds the
+ * stdout pipe: a child write blocks while its chunk does not fit. poll() reports POLLIN (data), POLLHUP (writer gone), POLLOUT (room), POLLERR (reader
  * gone) exactly for that state; timeout -1 blocks until child steps make something ready - if the child cannot step or
  * has nothing left to do: "deadlock" assertion; timeout 0 returns at once; timeout > 0 with nothing ready lets the whole
  * timeout elapse (a child step during the wait is the same observation as that step just before the call, which the
  * schedule covers). waitpid(WNOHANG) = 0 until the exit, then the pid, once; blocking waitpid runs the child to its exit
  * (cannot: deadlock assertion). kill(SIGKILL) ends the child at once; kill on a reaped child = ESRCH.
- * Clock (deadline cells only): tv_sec is constant, tv_usec a multiple of 1 ms that stays below 1 s; any OS call may take
- * 0..3 ms (symbolic), a poll that times out additionally takes exactly its timeout. (With a microsecond clock the last
- * millisecond before the deadline is a busy loop of poll(0) calls, unbounded in any model.)
+ * Clock (deadline cells only): the first gettimeofday returns a fixed value, every later one a fresh symbolic value (tv_sec
+ * constant, at most 10 ms past the deadline), non-decreasing; the cell fixes FL = the index of the first clock read that is at or past the deadline (= first value +
+ * TIMEOUT): reads before FL return values at least 1 ms before the deadline, reads from FL on values >= deadline. (Without
+ * the 1 ms margin the parent's last millisecond is a busy loop of poll(0) calls of unbounded length.) A poll with nothing
+ * ready waits its whole timeout, so the next clock read must be at or past the deadline (a cell whose FL contradicts this
+ * is reported as a bound failure, not silently skipped). The model also checks the parent's arithmetic: before the
+ * deadline it passes a timeout of at least 1 ms and never more than TIMEOUT, after it a timeout of 0.
  *
  * Oracle: no deadline: communicate returns (no exception) exactly the bytes the child wrote, in order. Always: at most
  * TMAX OS calls, child reaped exactly once when the Subprocess is gone, every descriptor closed at most once, the fd members
@@ -61,7 +71,6 @@ uint8_t* X___errno_location(void);
 #define POLLERR_ 8
 #define POLLHUP_ 16
 #define WNOHANG_ 1
-#define CLOCK_UNIT 1000u
 #ifndef IN_N
 #define IN_N 0
 #endif
@@ -77,6 +86,12 @@ uint8_t* X___errno_location(void);
 #ifndef CAP
 #define CAP (IN_N ? IN_N : 1) /* stdin pipe capacity in bytes */
 #endif
+#ifndef OCAP
+#define OCAP 99 /* stdout pipe capacity in bytes (99 = never full): a child write blocks while the chunk does not fit */
+#endif
+#ifndef WBLOCK
+#define WBLOCK 0 /* 1: write() on a descriptor without O_NONBLOCK returns only when ALL bytes are in the pipe (POSIX blocking write) */
+#endif
 #ifndef TMAX
 #define TMAX 16
 #endif
@@ -86,81 +101,138 @@ uint8_t* X___errno_location(void);
 #define NEV ((int)sizeof(EVS) - 1)
 #define MAXEV 5
 static const char evs[] = EVS;
-static const char sched[] = SCHED; /* char i: OS call index (base 36) of event i, or '*' = every position (case split) */
+#ifndef LATE
+#define LATE "00000"
+#endif
+static const char sched[] = SCHED; /* char i: OS call index (base 36) of event i */
+static const char late_s[] = LATE; /* char i: '1' = "that OS call or any later one" */
 
 static uint8_t data[WMAX + 1], payload[IN_N + 1], got_in[IN_N + 1];
 static uint64_t cum[MAXEV + 1];    /* stdout bytes written once event i has happened */
 static uint64_t W;                 /* stdout bytes of the whole script */
-static int at[MAXEV + 1], due_[MAXEV + 1];
+static int at[MAXEV + 1], due_[MAXEV + 1], late[MAXEV + 1], fired_at[MAXEV + 1];
 static int next_ev;                /* child program counter */
 static uint64_t written, consumed; /* stdout pipe */
 static uint64_t delivered, child_read; /* stdin pipe */
 static int out_writer_open, in_reader_open, exited, reaped, killed, reap_count, write_failed;
 static uint32_t status, status_in;
 static int t; /* OS call counter */
-static uint8_t mv2[TMAX + 1], mv3[TMAX + 1]; /* per OS call: move a 2nd / a 3rd byte if possible */
-static uint8_t clk_inc[TMAX + 1];
-static uint64_t clock0, clock_us, first_clock;
-static int clock_read, late_reads;
-static int closed_in, closed_out, kill9_calls;
+/* How many bytes a read()/write()/child read moves when more than one could move ("choice point"): concrete per cell.
+ * MVR / MVW / MVC (parent's reads of stdout, parent's writes to stdin, child's reads of stdin) list the amount for the
+ * 1st, 2nd.. choice point of that kind; LIMR / LIMW / LIMC the number of bytes that could have moved there. The cell list
+ * contains, for every schedule, the complete tree of amounts 1..lim (checked in spec.py); the query asserts that the run
+ * has exactly these choice points with exactly these limits. */
+#ifndef MVR
+#define MVR ""
+#define LIMR ""
+#endif
+#ifndef MVW
+#define MVW ""
+#define LIMW ""
+#endif
+#ifndef MVC
+#define MVC ""
+#define LIMC ""
+#endif
+static const char mv_plan[3][8] = {MVR, MVW, MVC}, mv_lim[3][8] = {LIMR, LIMW, LIMC};
+static int mv_used[3], mv_bad;
+static uint8_t mv_limseen[3][4];
+#ifdef SCHED_FROM_INPUT
+static uint8_t mv_in[3][4];
+#endif
+#ifndef FL
+#define FL 99 /* index of the first clock read that sees the deadline passed */
+#endif
+#define NCLK 12
+#ifndef CLK0
+#define CLK0 5000u /* tv_usec of the first clock read */
+#endif
+static uint64_t clk_val[NCLK], first_clock, last_clock;
+static int clock_reads, late_reads, last_read_late, must_be_late, first_late;
+static int closed_in, closed_out, kill9_calls, nonblock_in;
 
 static void model_reset(void) {
   next_ev = 0; written = consumed = 0; delivered = child_read = 0;
   out_writer_open = 1; in_reader_open = 1; exited = reaped = killed = reap_count = write_failed = 0;
-  status = status_in; t = 0; clock_us = clock0; first_clock = 0; clock_read = late_reads = 0; closed_in = closed_out = kill9_calls = 0;
+  status = status_in; t = 0; first_clock = last_clock = 0; clock_reads = late_reads = last_read_late = must_be_late = 0; closed_in = closed_out = kill9_calls = nonblock_in = 0;
+  mv_used[0] = mv_used[1] = mv_used[2] = mv_bad = 0;
+  for (int k = 0; k < 3; k++) for (int i = 0; i < 4; i++) mv_limseen[k][i] = 0;
   for (int i = 0; i < IN_N; i++) got_in[i] = 0;
+  for (int i = 0; i < MAXEV; i++) fired_at[i] = TMAX + 1;
 }
 static int tick(void) {
   ASSERT(t < TMAX, "BOUND: number of OS calls (no livelock inside the bound)");
   ASSUME(t < TMAX);
   if (!closed_in && IN_N > 0 && (delivered == IN_N || write_failed)) ASSERT(0, "the stdin write end is closed as soon as the payload is delivered or the write failed");
-  if (TIMEOUT) clock_us += (uint64_t)clk_inc[t] * CLOCK_UNIT;
   return t++;
 }
-/* how many bytes one read()/write() moves: 1, 2 or 3 (solver's choice per OS call), never more than `lim` */
-static uint64_t moved(int j, uint64_t lim) {
-  uint64_t k = 1;
-  if (lim >= 2 && mv2[j]) k = 2;
-  if (lim >= 3 && k == 2 && mv3[j]) k = 3;
-  return k;
+/* how many bytes one read()/write()/child read moves; lim = how many could move */
+static uint64_t moved(int kind, uint64_t lim) {
+  if (lim < 2) return 1;
+  int k = mv_used[kind]++;
+  if (k < 4) mv_limseen[kind][k] = (uint8_t)lim;
+#ifdef SCHED_FROM_INPUT
+  uint64_t d = k < 4 ? mv_in[kind][k] : 1;
+  if (d < 1) d = 1;
+  if (d > lim) d = lim;
+  return d;
+#else
+  if (k >= (int)sizeof(mv_plan[kind]) - 1 || mv_plan[kind][k] == 0) { mv_bad = 1; return 1; }
+  uint64_t d = (uint64_t)(mv_plan[kind][k] - '0');
+  if (d < 1 || d > lim || (uint64_t)(mv_lim[kind][k] - '0') != lim) { mv_bad = 1; return 1; }
+  return d;
+#endif
 }
 /* the child tries its next event; 1 = done (program counter advanced), 0 = nothing left / blocked. A blocked `e` still
  * consumes what is in its stdin pipe. */
 static int child_try(int j) {
   if (exited || next_ev >= NEV) return 0;
   char k = evs[next_ev];
-  if (k >= '1' && k <= '9') { written = cum[next_ev]; }
+  if (k >= '1' && k <= '9') { if (cum[next_ev] - consumed > OCAP) return 0; written = cum[next_ev]; }
   else if (k == 'c') { out_writer_open = 0; }
   else if (k == 'k') { in_reader_open = 0; }
   else if (k == 'r') {
-    if (delivered > child_read) child_read += moved(j, delivered - child_read);
+    if (delivered > child_read) child_read += moved(2, delivered - child_read);
     else if (!closed_in) return 0;
   }
   else if (k == 'e') { child_read = delivered; if (!closed_in) return 0; }
   else { exited = 1; out_writer_open = 0; in_reader_open = 0; }
+  fired_at[next_ev] = j;
   next_ev++;
   return 1;
 }
 static void child_run(int j) { /* events scheduled for OS call j or earlier happen now (and with them every earlier event) */
   int due = 0;
-  for (int i = MAXEV - 1; i >= 0; i--) { if (i < NEV && at[i] <= j) due = 1; due_[i] = due; }
+  for (int i = MAXEV - 1; i >= 0; i--) { if (i < NEV && !late[i] && at[i] <= j) due = 1; due_[i] = due; }
   for (int i = 0; i < MAXEV; i++)
     if (i < NEV && i == next_ev && due_[i]) child_try(j);
 }
 
 uint32_t STUB(gettimeofday)(uint8_t* tv, uint8_t* tz) {
   (void)tz;
+  ASSERT(TIMEOUT != 0, "without a deadline the clock is not consulted");
   ASSERT(!reaped, "the clock is not consulted for a child that has been reaped");
   ASSUME(!reaped);
   ASSERT(late_reads < 2, "after seeing the deadline passed the parent reads the clock at most once more");
   ASSUME(late_reads < 2);
   int j = tick();
   child_run(j);
-  ASSUME(clock_us < 1000000u);
-  if (!clock_read) { clock_read = 1; first_clock = clock_us; }
-  if (TIMEOUT && clock_us >= first_clock + TIMEOUT) late_reads++;
-  ((uint64_t*)tv)[0] = 1000;      /* tv_sec */
-  ((uint64_t*)tv)[1] = clock_us;  /* tv_usec */
+  int k = clock_reads++;
+  ASSERT(k < NCLK, "BOUND: number of clock reads");
+  ASSUME(k < NCLK);
+  int is_late = k >= first_late;
+  uint64_t v;
+  if (k == 0) { ASSERT(!is_late, "BOUND: the first clock read defines the deadline, it cannot be late"); v = first_clock = clk_val[0]; }
+  else if (is_late) v = first_clock + TIMEOUT + clk_val[k];
+  else { ASSUME(clk_val[k] + 1000u <= TIMEOUT); v = first_clock + clk_val[k]; }
+  ASSERT(!(must_be_late && !is_late), "BOUND: FL inconsistent - a poll waited its whole timeout, the next clock value is at or past the deadline");
+  ASSUME(!(must_be_late && !is_late));
+  ASSUME(v >= last_clock);
+  last_clock = v;
+  last_read_late = is_late;
+  if (is_late) late_reads++;
+  ((uint64_t*)tv)[0] = 1000; /* tv_sec */
+  ((uint64_t*)tv)[1] = v;    /* tv_usec */
   return 0;
 }
 struct pfd { int32_t fd; int16_t events; int16_t revents; };
@@ -171,7 +243,7 @@ static int16_t ready(int32_t fd, int16_t events) {
     if (!out_writer_open) r |= POLLHUP_;
   }
   if (fd == IN_FD && !closed_in) {
-    if ((events & POLLOUT_) && in_reader_open && delivered - child_read < CAP) r |= POLLOUT_;
+    if ((events & POLLOUT_) && delivered - child_read < CAP) r |= POLLOUT_; /* Linux: also while the reader is gone */
     if (!in_reader_open) r |= POLLERR_;
   }
   return r;
@@ -190,8 +262,12 @@ uint32_t STUB(poll)(uint8_t* fds_, uint64_t n, uint32_t timeout_ms) {
   ASSERT(!(reaped && timeout_ms != 0), "no waiting poll for a child that has been reaped");
   ASSUME(!(reaped && timeout_ms != 0));
 #if TIMEOUT
-  ASSERT((int32_t)timeout_ms >= 0 && (uint64_t)timeout_ms * 1000u <= TIMEOUT, "with a deadline poll never waits longer than the timeout");
-  ASSUME((int32_t)timeout_ms >= 0 && (uint64_t)timeout_ms * 1000u <= TIMEOUT);
+  ASSERT(kill9_calls || late_reads < 2, "after seeing the deadline passed twice the parent does not poll again");
+  ASSUME(kill9_calls || late_reads < 2);
+  if (!reaped) {
+    if (last_read_late) ASSERT(timeout_ms == 0, "at or past the deadline poll does not wait");
+    else ASSERT((int32_t)timeout_ms >= 1 && (uint64_t)timeout_ms * 1000u <= TIMEOUT, "before the deadline poll waits at least 1 ms and at most the timeout");
+  }
 #else
   ASSERT(timeout_ms == 0 || timeout_ms == (uint32_t)-1, "without a deadline poll blocks or does not wait at all");
   ASSUME(timeout_ms == 0 || timeout_ms == (uint32_t)-1);
@@ -200,14 +276,16 @@ uint32_t STUB(poll)(uint8_t* fds_, uint64_t n, uint32_t timeout_ms) {
   child_run(j);
   ASSERT(n <= 2, "at most two descriptors are polled");
   int cnt = poll_scan(fds, n);
+#if TIMEOUT
+  if (cnt == 0 && !reaped && !last_read_late) must_be_late = 1; /* the whole timeout elapses */
+#else
   if (cnt == 0 && (int32_t)timeout_ms < 0) {
     /* blocks until child steps make something ready */
     for (int i = 0; i <= MAXEV; i++) if (cnt == 0) { child_try(j); cnt = poll_scan(fds, n); }
     ASSERT(cnt != 0, "poll(-1) can never return: deadlock");
     ASSUME(cnt != 0);
-  } else if (cnt == 0 && timeout_ms > 0) {
-    clock_us += (uint64_t)timeout_ms * 1000u; /* the whole timeout elapses */
   }
+#endif
   return (uint32_t)cnt;
 }
 uint64_t STUB(read)(uint32_t fd, uint8_t* buf, uint64_t n) {
@@ -220,7 +298,7 @@ uint64_t STUB(read)(uint32_t fd, uint8_t* buf, uint64_t n) {
     ASSUME(!out_writer_open);
     return 0;
   }
-  uint64_t k = moved(j, avail < n ? avail : n);
+  uint64_t k = moved(0, avail < n ? avail : n);
   for (uint64_t i = 0; i < WMAX; i++) if (i < k) buf[i] = data[consumed + i];
   consumed += k;
   return k;
@@ -233,9 +311,34 @@ uint64_t STUB(write)(uint32_t fd, uint8_t* buf, uint64_t n) {
   ASSUME(n >= 1 && n == IN_N - delivered);
   if (!in_reader_open) { write_failed = 1; SET_ERRNO(32); return (uint64_t)-1; } /* EPIPE */
   uint64_t room = CAP - (delivered - child_read);
-  ASSERT(room > 0, "blocking write on a full pipe (poll did not report it writable)");
-  ASSUME(room > 0);
-  uint64_t k = moved(j, room < n ? room : n);
+  if (WBLOCK && !nonblock_in) {
+    /* POSIX blocking write: returns when all n bytes are in the pipe; while the pipe is full the call sleeps and only the
+     * child can make room */
+    uint64_t done = 0;
+    for (int round = 0; round <= IN_N + MAXEV; round++) if (done < n) {
+      room = CAP - (delivered - child_read);
+      if (room == 0) {
+        int moved_on = child_try(j);
+        if (!in_reader_open) { write_failed = 1; SET_ERRNO(32); return (uint64_t)-1; }
+        room = CAP - (delivered - child_read);
+        ASSERT(moved_on || room > 0, "write() on the blocking stdin descriptor can never complete: deadlock");
+        ASSUME(moved_on || room > 0);
+      }
+      uint64_t k = room < n - done ? room : n - done;
+      for (uint64_t i = 0; i < IN_N; i++) if (i < k) got_in[delivered + i] = buf[done + i];
+      delivered += k; done += k;
+    }
+    ASSERT(done == n, "BOUND: rounds of the blocking write");
+    ASSUME(done == n);
+    return n;
+  }
+  if (room == 0) {
+    ASSERT(nonblock_in, "blocking write on a full pipe (poll did not report it writable)");
+    ASSUME(nonblock_in);
+    SET_ERRNO(11); /* EAGAIN */
+    return (uint64_t)-1;
+  }
+  uint64_t k = moved(1, room < n ? room : n);
   for (uint64_t i = 0; i < IN_N; i++) if (i < k) got_in[delivered + i] = buf[i];
   delivered += k;
   return k;
@@ -243,6 +346,8 @@ uint64_t STUB(write)(uint32_t fd, uint8_t* buf, uint64_t n) {
 uint32_t STUB(waitpid)(uint32_t pid, uint8_t* st, uint32_t options) {
   ASSERT(!reaped, "waitpid on a child that was already reaped");
   ASSUME(!reaped);
+  ASSERT(kill9_calls || late_reads < 2, "after seeing the deadline passed twice the parent kills the child before waiting again");
+  ASSUME(kill9_calls || late_reads < 2);
   int j = tick();
   child_run(j);
   ASSERT(pid == PID, "waitpid on the child");
@@ -258,10 +363,20 @@ uint32_t STUB(waitpid)(uint32_t pid, uint8_t* st, uint32_t options) {
 }
 uint32_t STUB(kill)(uint32_t pid, uint32_t sig) {
   ASSERT(pid == PID, "kill on the child");
+  ASSERT(late_reads > 0, "the child is killed only after the clock was seen at or past the deadline");
+  ASSUME(late_reads > 0);
   if (reaped) { SET_ERRNO(3); return (uint32_t)-1; } /* ESRCH */
   if (sig == 9) kill9_calls++;
   if (sig == 9 && !exited) { exited = 1; killed = 1; status = 9; out_writer_open = 0; in_reader_open = 0; }
   return 0;
+}
+/* fcntl: only F_GETFL / F_SETFL on the stdin write end (a repaired communicate makes it non-blocking) */
+uint32_t STUB(fcntl)(uint32_t fd, uint32_t cmd, uint64_t arg) {
+  ASSERT(fd == IN_FD && !closed_in, "fcntl on the open stdin descriptor");
+  if (cmd == 3) return 1; /* F_GETFL: O_WRONLY */
+  if (cmd == 4) { nonblock_in = (arg & 04000) != 0; return 0; } /* F_SETFL, O_NONBLOCK */
+  ASSERT(0, "fcntl command other than F_GETFL / F_SETFL");
+  return (uint32_t)-1;
 }
 uint32_t STUB(close)(uint32_t fd) {
   if (fd == IN_FD) { ASSERT(!closed_in, "stdin pipe closed twice"); closed_in = 1; }
@@ -270,6 +385,13 @@ uint32_t STUB(close)(uint32_t fd) {
   return 0;
 }
 
+static void draw_clock(void) {
+  /* clk_val[0]: tv_usec of the first read (concrete: the deadline computed from it must be a constant for CBMC, otherwise the
+   * test "deadline != 0" in communicate does not fold and the paths diverge); clk_val[k]: distance of read k from the first read (before the deadline) or
+   * from the deadline (at or past it), at most 10 ms; all values stay below one second */
+  for (int k = 1; k < NCLK; k++) clk_val[k] = TIMEOUT ? in_range(0, 9999) : 0;
+  clk_val[0] = CLK0;
+}
 static int b36(char c) { return c <= '9' ? c - '0' : c - 'a' + 10; }
 
 static void run_case(void) {
@@ -305,42 +427,53 @@ static void run_case(void) {
 }
 
 void harness(void) {
-  int lo[MAXEV], hi[MAXEV], sel[MAXEV];
-  in_bytes(data, WMAX);
+    in_bytes(data, WMAX);
   in_bytes(payload, IN_N);
-  status_in = (uint32_t)in_range(0, 0xFFFF);
-  ASSUME((status_in & 0x7F) != 0x7F);                        /* not "stopped" */
-  ASSUME((status_in & 0x7F) == 0 || (status_in >> 8) == 0);  /* exit code, or terminating signal (+ core flag) */
+  { /* wait status: normal exit with any code, or death by any signal 1..126 with or without core dump */
+    uint32_t by_signal = in_bool(), code = (uint32_t)in_range(0, 255), sig = (uint32_t)in_range(1, 126), core = in_bool();
+    status_in = by_signal ? (sig | (core << 7)) : (code << 8);
+  }
   W = 0;
   for (int i = 0; i < MAXEV; i++) {
     if (i < NEV && evs[i] >= '1' && evs[i] <= '9') W += (uint64_t)(evs[i] - '0');
     cum[i] = W;
   }
   ASSERT(W <= WMAX && NEV <= MAXEV && NEV >= 1 && evs[NEV - 1] == 'x', "BOUND: script shape");
-  for (int j = 0; j <= TMAX; j++) {
-    mv2[j] = in_bool(); mv3[j] = in_bool();
-    clk_inc[j] = TIMEOUT ? (uint8_t)in_range(0, 3) : 0;
+  for (int i = 0; i < MAXEV; i++) for (int k = 0; k < MAXEV; k++) if (i < k && k < NEV) {
+    ASSERT(!(evs[i] == 'c' && evs[k] >= '1' && evs[k] <= '9'), "BOUND: no write after closing stdout");
+    ASSERT(!(evs[i] == 'k' && (evs[k] == 'r' || evs[k] == 'e')), "BOUND: no read after closing stdin");
   }
-  clock0 = TIMEOUT ? (uint64_t)in_range(0, 5) * CLOCK_UNIT : 0;
-  /* schedule: concrete positions from SCHED; a '*' position ranges over [previous event's position, next concrete position
-   * (or TMAX)] and is chosen by a symbolic selector; every choice is executed separately below */
+  draw_clock();
+#ifdef SCHED_FROM_INPUT
+  first_late = TIMEOUT ? (int)in_range(1, 99) : 99;
+#else
+  first_late = FL;
+#endif
+  int prev = 0;
   for (int i = 0; i < MAXEV; i++) {
-    if (i < NEV && sched[i] != '*') { lo[i] = hi[i] = b36(sched[i]); sel[i] = lo[i]; }
-    else if (i < NEV) { lo[i] = 0; hi[i] = TMAX; sel[i] = (int)in_range(0, TMAX); }
-    else { lo[i] = hi[i] = sel[i] = 0; }
+    at[i] = 0; late[i] = 0;
+    if (i < NEV) {
+#ifdef SCHED_FROM_INPUT /* native exploration only (gen_cells.py) */
+      at[i] = (int)in_range(0, TMAX); late[i] = in_bool();
+#else
+      at[i] = b36(sched[i]); late[i] = late_s[i] == '1';
+#endif
+      ASSERT(at[i] >= prev && at[i] <= TMAX, "BOUND: SCHED is non-decreasing and within TMAX");
+      prev = at[i];
+    }
   }
-  for (int i = MAXEV - 2; i >= 0; i--) if (i + 1 < NEV && hi[i] > hi[i + 1]) hi[i] = hi[i + 1];
-  for (int i = 1; i < MAXEV; i++) if (i < NEV && lo[i] < lo[i - 1]) lo[i] = lo[i - 1];
-  int ran = 0;
-  for (int a0 = 0; a0 <= TMAX; a0++) if (a0 >= lo[0] && a0 <= hi[0])
-    for (int a1 = 0; a1 <= TMAX; a1++) if (a1 >= lo[1] && a1 <= hi[1] && (NEV < 2 || a1 >= a0))
-      for (int a2 = 0; a2 <= TMAX; a2++) if (a2 >= lo[2] && a2 <= hi[2] && (NEV < 3 || a2 >= a1))
-        for (int a3 = 0; a3 <= TMAX; a3++) if (a3 >= lo[3] && a3 <= hi[3] && (NEV < 4 || a3 >= a2))
-          for (int a4 = 0; a4 <= TMAX; a4++) if (a4 >= lo[4] && a4 <= hi[4] && (NEV < 5 || a4 >= a3))
-            if (sel[0] == a0 && sel[1] == a1 && sel[2] == a2 && sel[3] == a3 && sel[4] == a4) {
-              at[0] = a0; at[1] = a1; at[2] = a2; at[3] = a3; at[4] = a4;
-              run_case();
-              ran = 1;
-            }
-  ASSUME(ran);
+#ifdef SCHED_FROM_INPUT
+  for (int k = 0; k < 3; k++) for (int i = 0; i < 4; i++) mv_in[k][i] = (uint8_t)in_range(1, 3);
+#endif
+  run_case();
+  for (int k = 0; k < 3; k++) { OBS(mv_used[k]); for (int i = 0; i < 4; i++) OBS(mv_limseen[k][i]); }
+#ifndef SCHED_FROM_INPUT
+  for (int k = 0; k < 3; k++) if (mv_plan[k][mv_used[k] < 7 ? mv_used[k] : 7] != 0) mv_bad = 1; /* plan longer than the run */
+  ASSERT(!mv_bad, "BOUND: the run has exactly the choice points (and limits) of the MVR/MVW/MVC plan of this cell");
+#endif
+  if (first_late < 99) ASSERT(clock_reads > first_late, "BOUND: FL lies beyond the clock reads of this run (it is the same run as FL = 99)");
+  for (int i = 0; i < MAXEV; i++) if (i < NEV) {
+    OBS(fired_at[i]);
+    if (late[i]) ASSERT(fired_at[i] <= at[i] || t <= at[i], "BOUND: an event marked LATE has been forced by the end of its OS call, or the run ended before that call (all later positions are the same run)");
+  }
 }
